@@ -416,7 +416,21 @@ func (fr *Frame) applyContracts(st *State, pc Term, parts []conPart, resT types.
 				isFresh = true
 			}
 		}
-		for _, a := range part.args {
+		for ai, a := range part.args {
+			if ai < len(part.names) && containsStr(part.con.NoRetain, part.names[ai]) {
+				if !e.p.retains(part.key, part.names[ai]) {
+					continue // the callee does not keep this argument's storage in its result
+				}
+				// the callee keeps it: the caller must hand over storage it owns (fresh, no spare-capacity alias)
+				goal := True
+				for _, lab := range strings.Split(joinLabel(labelOf(a), ownOf(a)), "|") {
+					if strings.HasPrefix(lab, "spare:") || strings.HasPrefix(lab, "param:") || lab == "global" {
+						goal = False
+					}
+				}
+				e.oblige("fresh", fmt.Sprintf("%s#owned-arg(%s/%s)@%s", fr.key, part.key, part.names[ai], e.posStr(pos)), pos, pc, goal,
+					"the callee keeps this argument in its result, so the caller must pass storage it owns (clone before passing); labels: "+joinLabel(labelOf(a), ownOf(a)))
+			}
 			resLabel = joinLabel(resLabel, plainLabel(labelOf(a)))
 		}
 		if part.recvArg != nil {
@@ -786,4 +800,13 @@ func stripSelf(elem, self string) string {
 		return "fresh"
 	}
 	return elem
+}
+
+func containsStr(l []string, x string) bool {
+	for _, y := range l {
+		if y == x {
+			return true
+		}
+	}
+	return false
 }
